@@ -18,6 +18,7 @@ package h2b
 
 import (
 	"fmt"
+	"os"
 	"runtime"
 	"strings"
 	"testing"
@@ -365,6 +366,9 @@ func TestC36(t *testing.T) {
 	}
 	L := ev.N(2, 3)
 	sweep := int64(0)
+	if os.Getenv("H2B_C36_SKIP_SWEEP") != "" { // development aid for mutant testing of the generated part
+		shapes = nil
+	}
 	for _, sh := range shapes {
 		var walk func(prefix []c36Op)
 		walk = func(prefix []c36Op) {
@@ -404,7 +408,7 @@ func TestC36(t *testing.T) {
 	caseNo := 0
 	rapid.Check(t, func(rt *rapid.T) {
 		caseNo++
-		if caseNo%bbEvery == 0 {
+		if caseNo%bbEvery == 0 || os.Getenv("H2B_C36_ONLY_BB") != "" {
 			c36BlackBox(rt, rec)
 			return
 		}
